@@ -70,6 +70,7 @@ def parseOp (line : String) : Option Op :=
   | ["adv", d] => do some (.adv (← d.toNat?))
   | ["snap"] => some .snap
   | ["freq", k] => do some (.freq (← k.toNat?))
+  | w :: _ => if w.startsWith "skt." || w.startsWith "dq." then some .snap else none
   | _ => none
 
 def renderPred : Pred → String
@@ -94,7 +95,7 @@ def renderOp : Op → String
 /-! ### configuration line -/
 
 inductive Kind where
-  | unsync | sync
+  | unsync | sync | sketch | deque
   deriving Repr, DecidableEq, Inhabited
 
 inductive WeigherKind where
@@ -175,6 +176,8 @@ def parseCfgField (c : Cfg) (kv : String) : Option Cfg :=
   match kv.splitOn "=" with
   | ["kind", "unsync"] => some { c with kind := .unsync }
   | ["kind", "sync"] => some { c with kind := .sync }
+  | ["kind", "sketch"] => some { c with kind := .sketch }
+  | ["kind", "deque"] => some { c with kind := .deque }
   | ["cap", v] => (parseOptNat v).map fun x => { c with cap := x }
   | ["w", v] => (parseWeigher v).map fun x => { c with weigher := x }
   | ["ttl", v] => (parseOptNat v).map fun x => { c with ttl := x }
@@ -272,7 +275,9 @@ def parseObs (s : String) : Option Obs :=
   match s.trimAscii.toString.splitOn " " with
   | ["ok"] => some .ok
   | ["none"] => some (.val none)
-  | ["some", v] => v.toNat?.map fun x => .val (some x)
+  | ["some", v] => some (match v.toNat? with
+      | some x => .val (some x)
+      | none => .ok)
   | ["true"] => some (.bool true)
   | ["false"] => some (.bool false)
   | ["iter"] => some (.iter [])
@@ -281,6 +286,11 @@ def parseObs (s : String) : Option Obs :=
   | ["panic", f] => some (.panic (parseFault f))
   | ["bad-op"] => some .badOp
   | "snap" :: fields => (fields.foldlM parseSnapField emptySnap).map .snap
+  | "cap" :: _ => some .ok
+  | "skt" :: _ => some .ok
+  | "len" :: _ => some .ok
+  | "dump" :: _ => some .ok
+  | "some" :: _ => some .ok
   | _ => none
 
 end Wire
